@@ -29,8 +29,13 @@ static inline u64 vp_nd_range(u64 lo, u64 hi) {
 }
 #define vp_nd_bool() ((int)(vp_nd() & 1))
 
-unsigned vp_left, vp_changed;
+unsigned vp_left, vp_changed, vp_block_req;
+/* called from an external stub in thread mode: park the calling thread; the call is re-executed when it is scheduled next
+   (the stub must not have had side effects). Model of futex_wait / sem_wait / any blocking kernel call. */
+#define VP_BLOCK() (vp_block_req = 1)
 void vp_pause(void) {}
+void vp_spin_hint(void) {}   /* wrapper-side marker: a loop containing it is a busy-wait loop */
+unsigned vp_cur;              /* index of the model thread that is running (set by VP_RUNT / VP_QUIESCEn: a=0, b=1, c=2); for stubs */
 void vp_trap(void) { VP_ASSERT(0, "llvm.trap reached"); }
 void vp_unreachable(void) { VP_ASSERT(0, "unreachable reached"); }
 /* default definitions of the OS/libc externals the translated code may reference (vpx_ prefix, see ir2c.py fname) */
@@ -57,6 +62,7 @@ void vpx_free(u8* p) { free(p); }
 /* free slice: run thread fn from its pc up to a solver-chosen context-switch point */
 #define VP_RUN(fn) VP_RUN_(fn)
 #define VP_RUN_(fn)    if (!fn##_fin) { VP_FL(fn) fn##_cs = (unsigned)vp_nd_range(fn##_pc, fn##_NV); fn##_step(); }
+#define VP_RUNT(fn, tid) { vp_cur = (tid); VP_RUN(fn) }
 /* forced slice: run as far as possible */
 #define VP_RUNMAX(fn) VP_RUNMAX_(fn)
 #define VP_RUNMAX_(fn) if (!fn##_fin) { VP_FLALL(fn) fn##_cs = fn##_NV; fn##_step(); VP_FLALL(fn) }
@@ -67,16 +73,16 @@ void vpx_free(u8* p) { free(p); }
  *   VP_SETTLE2(a,b)  ...  ; afterwards vp_deadlock is 1 iff lost wake-up/hand-off/deadlock */
 #define VP_QUIESCE2(a, b) VP_QUIESCE2_(a, b)
 #define VP_QUIESCE2_(a, b) \
-  VP_RUNMAX(a) VP_RUNMAX(b) \
+  vp_cur = 0; VP_RUNMAX(a) vp_cur = 1; VP_RUNMAX(b) \
   int vp_pb_ = VP_STUCK(a) && VP_STUCK(b); vp_changed = 0; \
-  VP_RUNMAX(a) VP_RUNMAX(b) \
+  vp_cur = 0; VP_RUNMAX(a) vp_cur = 1; VP_RUNMAX(b) \
   int vp_unfinished = !a##_fin || !b##_fin; \
   int vp_deadlock = vp_unfinished && vp_pb_ && VP_STUCK(a) && VP_STUCK(b) && !vp_changed;
 #define VP_QUIESCE3(a, b, c) VP_QUIESCE3_(a, b, c)
 #define VP_QUIESCE3_(a, b, c) \
-  VP_RUNMAX(a) VP_RUNMAX(b) VP_RUNMAX(c) \
+  vp_cur = 0; VP_RUNMAX(a) vp_cur = 1; VP_RUNMAX(b) vp_cur = 2; VP_RUNMAX(c) \
   int vp_pb_ = VP_STUCK(a) && VP_STUCK(b) && VP_STUCK(c); vp_changed = 0; \
-  VP_RUNMAX(a) VP_RUNMAX(b) VP_RUNMAX(c) \
+  vp_cur = 0; VP_RUNMAX(a) vp_cur = 1; VP_RUNMAX(b) vp_cur = 2; VP_RUNMAX(c) \
   int vp_unfinished = !a##_fin || !b##_fin || !c##_fin; \
   int vp_deadlock = vp_unfinished && vp_pb_ && VP_STUCK(a) && VP_STUCK(b) && VP_STUCK(c) && !vp_changed;
 #endif
